@@ -63,6 +63,7 @@ type childResult struct {
 	HungWhat  string         `json:"hung_what,omitempty"`
 	ReadBad   []string       `json:"read_bad,omitempty"`
 	IndexBad  []string       `json:"index_bad,omitempty"` // churn facet: quiescent index listing vs the records that must exist
+	SortAbort []string       `json:"sort_abort,omitempty"`
 	Reads     int            `json:"reads"`
 	RWOverlap bool           `json:"rw_overlap"`
 	Classes   []string       `json:"classes,omitempty"`
@@ -162,6 +163,7 @@ func childMain() int {
 			}
 			cr.ReadBad, cr.Reads = res.ReadViolations, res.Reads
 			cr.IndexBad = res.IndexViolations
+			cr.SortAbort = res.SortAborts
 			if p.Churn > 0 {
 				cr.Classes = append(cr.Classes, fmt.Sprintf("churn:%d", p.Churn))
 			}
@@ -216,6 +218,26 @@ func readerOverlapsWriter(evs []Event) bool {
 		}
 	}
 	return false
+}
+
+// resortAbortOnly: the quiescent listing differs from the model ONLY in its order, the swamp is
+// persistent and the engine logged that a value re-sort gave up on a record without a value.
+func resortAbortOnly(cr childResult) bool {
+	if cr.Config == CfgMem || len(cr.SortAbort) == 0 {
+		return false
+	}
+	typed := false
+	for _, m := range cr.SortAbort {
+		if strings.Contains(m, "is not an int64") {
+			typed = true
+		}
+	}
+	for _, b := range cr.IndexBad {
+		if !strings.Contains(b, "is not sorted at position") {
+			return false
+		}
+	}
+	return typed
 }
 
 // anyOverlapsWriter: a request of one client overlapped in time a write request of another.
@@ -326,6 +348,7 @@ const (
 	wSetGet  = "treasure-setters-vs-getters"
 	wGetAll  = "beacon-getall-live-map"
 	wSaveRst = "save-flag-reset-after-guard-release"
+	wResort  = "resort-aborted-by-record-mid-deletion"
 	tMethods = `treasure\.\(\*treasure\)\.`
 )
 
@@ -362,6 +385,12 @@ func classifyPair(p racePair) string {
 	// the reader is — the harness decoding a response, a filter walking the body, an io.Reader over it,
 	// the protobuf marshaller — the pair belongs to that finding.
 	if p.A == "swamp.wrapMsgpackBody" || p.B == "swamp.wrapMsgpackBody" {
+		return wSetGet
+	}
+	// same reasoning for a body the CLIENT sent in a Set: the harness fills a fresh slice in
+	// lin.bodyBytes, the in-process handler stores it by reference (SetContentByteArray), and a
+	// reader (e.g. the gRPC stream marshaller, protowire.AppendBytes) gets it from GetContentByteArray
+	if p.A == "lin.bodyBytes" || p.B == "lin.bodyBytes" {
 		return wSetGet
 	}
 	if (reTreasureSave.MatchString(p.A) && reTreasureWriter.MatchString(p.B)) || (reTreasureSave.MatchString(p.B) && reTreasureWriter.MatchString(p.A)) {
@@ -590,6 +619,51 @@ func TestC10Storm(t *testing.T) {
 	c10Campaign(t, "storm", c10StormRule, genStorm, pbt.Count(12, 240), 6)
 }
 
+// genFromEmpty: the swamp does not exist when the clients start and there is no anchor record.
+// 1–3 writers run insert-then-delete bursts of 1–20 NEW records (one Set request, one Delete
+// request): every time the last record goes the swamp auto-destroys and the next burst
+// summons a fresh, EMPTY swamp whose indexes are all cold. 1–3 readers loop first-time index
+// reads of every kind, streams, GetAll and Count against it.
+func genFromEmpty(t *rapid.T) Program {
+	p := Program{Config: rapid.IntRange(0, 2).Draw(t, "config"), NoAnchor: true}
+	nw := rapid.SampledFrom([]int{1, 1, 2, 3}).Draw(t, "writers")
+	nr := rapid.IntRange(1, 3).Draw(t, "readers")
+	for w := 0; w < nw; w++ {
+		var ops []Op
+		n := rapid.IntRange(20, 40).Draw(t, "cycles")
+		for j := 0; j < n; j++ {
+			ops = append(ops, Op{K: "burst", Key: -1, N: int64(rapid.SampledFrom([]int{1, 2, 5, 20}).Draw(t, "burst")), Mode: 1, CV: int64(j)})
+		}
+		p.Clients = append(p.Clients, ops)
+	}
+	for r := 0; r < nr; r++ {
+		var ops []Op
+		n := rapid.IntRange(40, 80).Draw(t, "reads")
+		for j := 0; j < n; j++ {
+			switch rapid.IntRange(0, 5).Draw(t, "reader") {
+			case 0:
+				ops = append(ops, Op{K: "getall", Key: -1})
+			case 1:
+				ops = append(ops, Op{K: "count", Key: -1})
+			case 2:
+				ops = append(ops, Op{K: "stream", Key: -1, Mode: rapid.IntRange(0, 2*len(indexVariants)-1).Draw(t, "svar")})
+			default:
+				ops = append(ops, Op{K: "index", Key: -1, Mode: rapid.IntRange(0, len(indexVariants)-1).Draw(t, "ivar")})
+			}
+		}
+		p.Clients = append(p.Clients, ops)
+	}
+	return p
+}
+
+const c10EmptyRule = "no anchor, the swamp does not exist when the clients start: 1–3 writers × 20–40 cycles (one Set inserting 1/2/5/20 NEW records, one Delete removing them — the swamp auto-destroys with its last record and the next Set " +
+	"summons a fresh empty swamp with cold indexes) against 1–3 readers × 40–80 first-time GetByIndex of 8 index/order kinds, GetByIndexStream, GetAll, Count; -race child; same oracle as the main facet; " +
+	"non-trivial = a read overlapped a write of another client"
+
+func TestC10FromEmpty(t *testing.T) {
+	c10Campaign(t, "fromempty", c10EmptyRule, genFromEmpty, pbt.Count(64, 3200), 8)
+}
+
 // genChurn: see churn.go. 2–4 value writers re-sort the built VALUE_INT64 index while 1–3
 // removers Delete / ShiftByKeys other records, 0–2 inserters add new ones and 0–2 readers
 // page the index; record x<i> belongs to client i % clients.
@@ -762,7 +836,7 @@ func c10Campaign(t *testing.T, facet, rule string, gen func(*rapid.T) Program, n
 	pbt.Extra("C10", facet+"_child_deaths", tot.deaths)
 	pbt.Extra("C10", facet+"_child_wall_s", tot.wall)
 	pbt.Extra("C10", facet+"_replayed_programs", len(replays))
-	for _, w := range []string{wSetGet, wGetAll, wSaveRst, wTornGet} {
+	for _, w := range []string{wSetGet, wGetAll, wSaveRst, wTornGet, wResort} {
 		if pbt.Open("C10", w) {
 			pbt.ReportFinding("C10", w, tot.knownDetail[w], tot.programs, tot.known[w])
 		}
@@ -833,7 +907,14 @@ func c10Judge(t *testing.T, tot *c10Totals, rule string, chunk []Program, bo bat
 				violation("panic", msg, p, nil)
 			}
 		}
-		if len(cr.IndexBad) > 0 {
+		if len(cr.IndexBad) > 0 && resortAbortOnly(cr) && pbt.Open("C10", wResort) {
+			// recorded finding: a re-sort gave up on a record whose content a concurrent Delete had
+			// already cleared; only the ORDER clause is affected and the abort is in the log
+			tot.known[wResort]++
+			if tot.knownDetail[wResort] == "" {
+				tot.knownDetail[wResort] = head(fmt.Sprintf("%s: %s; log: %s", cfgNames[cr.Config], strings.Join(cr.IndexBad, " | "), cr.SortAbort[0]), 300)
+			}
+		} else if len(cr.IndexBad) > 0 {
 			violation("index-mismatch", fmt.Sprintf("%s, %d pre-filled int64 records, every record touched by one client only; after all clients returned: %s", cfgNames[cr.Config], p.Churn, strings.Join(cr.IndexBad, " | ")), p, nil)
 		}
 		if len(cr.Malformed) > 0 {
@@ -908,3 +989,84 @@ func c10Judge(t *testing.T, tot *c10Totals, rule string, chunk []Program, bo bat
 }
 
 var _ = strconv.Itoa
+
+// TestC10StressResort is a measuring aid (skipped unless LIN_STRESS=<programs>): it runs a
+// remover-heavy churn workload on persisted records IN-PROCESS (no child, no race detector,
+// hence many more programs per second) and prints how many programs logged a value re-sort
+// that gave up ("failed to sort … is not an int64") and how many ended with an order /
+// membership mismatch at quiescence. Used to compare HEAD with a candidate repair.
+func TestC10StressResort(t *testing.T) {
+	n, _ := strconv.Atoi(os.Getenv("LIN_STRESS"))
+	if n <= 0 {
+		t.Skip("LIN_STRESS not set")
+	}
+	flag.Set("rapid.seed", strconv.FormatUint(pbt.RapidSeed("C10/stress"), 10))
+	flag.Set("rapid.checks", strconv.Itoa(n))
+	flag.Set("rapid.nofailfile", "true")
+	var progs []Program
+	t.Run("gen", func(t *testing.T) {
+		rapid.Check(t, func(rt *rapid.T) {
+			p := Program{Config: CfgImmediate, Churn: rapid.SampledFrom([]int{120, 400}).Draw(rt, "records")}
+			nw, nd := rapid.IntRange(3, 5).Draw(rt, "writers"), rapid.IntRange(3, 5).Draw(rt, "removers")
+			nc := nw + nd
+			per := p.Churn / nc
+			for c := 0; c < nc; c++ {
+				var ops []Op
+				nops := 40
+				if c < nw {
+					// writers of different lengths: the LAST re-sort of the index must be able to
+					// fall into the removers' busy phase
+					nops = rapid.IntRange(4, 40).Draw(rt, "wops")
+				}
+				for j := 0; j < nops; j++ {
+					rec := int64(c + (j%per)*nc)
+					if c < nw {
+						ops = append(ops, Op{K: "xset", Key: -1, N: int64(c + (rapid.IntRange(0, per-1).Draw(rt, "rec"))*nc), CV: int64(rapid.IntRange(0, 2000).Draw(rt, "val"))})
+					} else if j%3 == 0 {
+						ops = append(ops, Op{K: "xshift", Key: -1, N: rec})
+					} else {
+						ops = append(ops, Op{K: "xdel", Key: -1, N: rec})
+					}
+				}
+				p.Clients = append(p.Clients, ops)
+			}
+			if len(progs) < n {
+				progs = append(progs, p)
+			}
+		})
+	})
+	r := getRig()
+	aborts, abortRecords, orderBad, memberBad, panics := 0, 0, 0, 0, 0
+	for i := range progs {
+		sn := swampFor(progs[i].Config)
+		res := RunProgram(r, nil, sn, &progs[i], 60*time.Second)
+		if len(res.Hung) > 0 {
+			t.Fatalf("program %d hung", i)
+		}
+		DestroySwamp(r, sn)
+		if len(res.SortAborts) > 0 {
+			aborts++
+			abortRecords += len(res.SortAborts)
+		}
+		ob, mb := false, false
+		for _, b := range res.IndexViolations {
+			if strings.Contains(b, "is not sorted at position") {
+				ob = true
+			} else {
+				mb = true
+			}
+		}
+		if ob {
+			orderBad++
+		}
+		if mb {
+			memberBad++
+			t.Logf("program %d: %v", i, res.IndexViolations)
+		}
+		if res.PanicsBy > 0 {
+			panics++
+		}
+	}
+	t.Logf("STRESS programs=%d with-sort-abort-logged=%d sort-abort-records=%d quiescent-order-mismatch=%d quiescent-membership-mismatch=%d with-panic=%d",
+		len(progs), aborts, abortRecords, orderBad, memberBad, panics)
+}
